@@ -345,10 +345,12 @@ def manXml (own : String) (m : Man) : Elem :=
      .leaf "MAN_DELTA_MASS" [("units", "kg")] (.s "-0.001"), leafS "MAN_REF_FRAME" (manFrameOut own m)] ++
     (["MAN_DV_1", "MAN_DV_2", "MAN_DV_3"].zip m.dv).map fun (k, v) => Elem.leaf k [("units", "km/s")] v)
 
+def udLeaf (kv : String × String) : Elem := .leaf "USER_DEFINED" [("parameter", kv.1)] (.s kv.2)
+
 def udXml : Option (List (String × String)) → List Elem
   | none => []
   | some [] => if xmlUdSkipsEmpty then [] else [.node "userDefinedParameters" []]
-  | some kvs => [.node "userDefinedParameters" (kvs.map fun (k, v) => Elem.leaf "USER_DEFINED" [("parameter", k)] (.s v))]
+  | some kvs => [.node "userDefinedParameters" (kvs.map udLeaf)]
 
 /-- `opm._dumps_xml` -/
 def opmXml (m : Opm) : R Elem := do
@@ -439,6 +441,13 @@ def segPath (data : Dict) : R (Dict × Dict) := do
   let dt ← asDict (← getItem seg "data")
   pure (md, dt)
 
+/-- `ud[field.attrib["parameter"]] = field.text` -/
+def readUdField : Val → R (String × String)
+  | .field (.s t) a => match a.lookup "parameter" with
+    | some k => .ok (k, t)
+    | none => .error .keyError
+  | _ => .error .attrError
+
 /-- the `userDefinedParameters` block of the OPM / OMM XML readers -/
 def xmlUd (wrap : Bool) (dt : Dict) : R (Option (List (String × String))) := do
   match dt.lookup "userDefinedParameters" with
@@ -449,11 +458,7 @@ def xmlUd (wrap : Bool) (dt : Dict) : R (Option (List (String × String))) := do
     | none => pure none
     | some g =>
       let fields ← iterGroup wrap .attrError g
-      let kvs ← fields.mapM fun f => match f with
-        | .field (.s t) a => match a.lookup "parameter" with
-          | some k => pure (k, t)
-          | none => .error .keyError
-        | _ => .error .attrError
+      let kvs ← fields.mapM readUdField
       pure (if kvs.isEmpty then none else some kvs)
 
 /-- `opm._loads_xml` on the dict built by `xml2dict` -/
@@ -757,6 +762,21 @@ def loadOemKvn (ls : List Line) : R Oem := do
   | some (mt, pts) => do pure (st.done ++ [← finishSeg mt pts])
   | none => pure st.done
 
+/-- body of the `for statevector in …` loop of `oem._loads_xml` -/
+def loadPointXml (md : Dict) (v : Val) : R Point := do
+  let d ← asDict v
+  let x ← decodeUnit d "X" "km"
+  let y ← decodeUnit d "Y" "km"
+  let z ← decodeUnit d "Z" "km"
+  let vx ← decodeUnit d "X_DOT" "km/s"
+  let vy ← decodeUnit d "Y_DOT" "km/s"
+  let vz ← decodeUnit d "Z_DOT" "km/s"
+  let epoch ← textOf d "EPOCH"
+  let _ ← strOf md "TIME_SYSTEM"
+  let _ ← strOf md "OBJECT_NAME"
+  let _ ← strOf md "OBJECT_ID"
+  pure ({ epoch := epoch, state := [x, y, z, vx, vy, vz], cov := none } : Point)
+
 def loadSegXml (seg : Dict) : R Seg := keyErrToCcsds do
   let md ← asDict (← getItem seg "metadata")
   let dt ← asDict (← getItem seg "data")
@@ -764,19 +784,7 @@ def loadSegXml (seg : Dict) : R Seg := keyErrToCcsds do
   let center ← strOf md "CENTER_NAME"
   let frame ← centreRule center frame
   let svs ← iterGroup wrapOemStateVector .typeError (← getItem dt "stateVector")
-  let pts ← svs.mapM fun v => do
-    let d ← asDict v
-    let x ← decodeUnit d "X" "km"
-    let y ← decodeUnit d "Y" "km"
-    let z ← decodeUnit d "Z" "km"
-    let vx ← decodeUnit d "X_DOT" "km/s"
-    let vy ← decodeUnit d "Y_DOT" "km/s"
-    let vz ← decodeUnit d "Z_DOT" "km/s"
-    let epoch ← textOf d "EPOCH"
-    let _ ← strOf md "TIME_SYSTEM"
-    let _ ← strOf md "OBJECT_NAME"
-    let _ ← strOf md "OBJECT_ID"
-    pure ({ epoch := epoch, state := [x, y, z, vx, vy, vz], cov := none } : Point)
+  let pts ← svs.mapM (loadPointXml md)
   let covs ← match dt.lookup "covarianceMatrix" with
     | some v => iterGroup wrapOemCov .typeError v
     | none => pure []
@@ -930,6 +938,19 @@ def loadTdmKvn (ls : List Line) : R (String × List (List Obs)) := do
   let st ← tdmFold ls {}
   pure (st.scale, st.sets)
 
+/-- body of the `for obs in …` loop of `tdm._loads_xml` -/
+def loadObsXml (angle : Option String) (path : List String) (v : Val) : R Obs := do
+  let d ← asDict v
+  let date ← textOf d "EPOCH"
+  match d.filter (fun kv => kv.1 ≠ "EPOCH") with
+  | (key, fv) :: _ => do
+    let value ← fv.text
+    let kind ← tdmKind key (match angle with
+      | some a => .ok a
+      | none => .error .unboundLocal)
+    pure ({ kind := kind, path := path, epoch := date, value := value } : Obs)
+  | [] => .error .valueError
+
 /-- one segment of `tdm._loads_xml`; `angle` is the local variable `angle_type`, which survives from
 one segment to the next -/
 def loadTdmSegXml (angle : Option String) (seg : Dict) : R (Option String × String × List Obs) := do
@@ -943,17 +964,7 @@ def loadTdmSegXml (angle : Option String) (seg : Dict) : R (Option String × Str
     | none => pure angle
   let dt ← asDict (← getItem seg "data")
   let obsV ← iterGroup wrapTdmObservation .attrError (← getItem dt "observation")
-  let obs ← obsV.mapM fun v => do
-    let d ← asDict v
-    let date ← textOf d "EPOCH"
-    match d.filter (fun kv => kv.1 ≠ "EPOCH") with
-    | (key, fv) :: _ => do
-      let value ← fv.text
-      let kind ← tdmKind key (match angle with
-        | some a => .ok a
-        | none => .error .unboundLocal)
-      pure ({ kind := kind, path := path, epoch := date, value := value } : Obs)
-    | [] => .error .valueError
+  let obs ← obsV.mapM (loadObsXml angle path)
   pure (angle, scale, obs)
 
 def tdmSegsXml : List Val → Option String → R (List (String × List Obs))
